@@ -13,15 +13,19 @@ PEEK = ("in", "PEEK")
 INSERT = "watto::string_table::StringTable::insert"
 
 
+def is_next(name):
+    return name.endswith(("Iterator::next", "Iterator>::next"))
+
+
 def strref(x):
     return ("strref", x)
 
 
 def norm_term(t):
     """rewriter: record-iterator renaming, string-table model, narrowing-cast erasure"""
-    if t[0] == "payload" and t[2] == "Some" and (t[1] == NEXT or (t[1][0] == "mcall" and t[1][1].endswith("Iterator::next"))):
+    if t[0] == "payload" and t[2] == "Some" and (t[1] == NEXT or (t[1][0] == "mcall" and is_next(t[1][1]))):
         return REC
-    if t[0] == "mcall" and t[1].endswith("Iterator::next"):
+    if t[0] == "mcall" and is_next(t[1]):
         return NEXT
     if t[0] == "peek":
         return PEEK
@@ -47,7 +51,7 @@ def norm_effect(e):
     k = e[0]
     if k == "call":
         name, args = e[1], e[2]
-        if name.endswith("Iterator::next") or name == INSERT or name.endswith("::entry"):
+        if is_next(name) or name == INSERT or name.endswith("::entry"):
             return None
         if name.endswith("Vec::push"):
             return ("push", args[0], args[1])
